@@ -4,6 +4,7 @@ import json, sys
 pid = sys.argv[1]
 wt = sys.argv[2] if len(sys.argv) > 2 else '/tmp/wt/' + pid
 hint = sys.argv[3] if len(sys.argv) > 3 else ''
+avoid = sys.argv[4] if len(sys.argv) > 4 else ''
 p = None
 for l in open('/verif/properties.jsonl'):
     r = json.loads(l)
@@ -11,7 +12,7 @@ for l in open('/verif/properties.jsonl'):
         p = r
 print(f"""You are helping to evaluate a verification effort for the Rust crate workspace awslabs/mls-rs (an implementation of the MLS protocol, RFC 9420). Your job: craft ONE realistic, subtle code change to mls-rs that BREAKS the semantic property given below, while the code still compiles and the existing test suite still passes, and provide a demonstration (a new test or small program) that fails with your change and passes without it.
 
-Work ONLY inside your own scratch git worktree of the repository: {wt}  (it is a git worktree; it has a warm `target/` directory). Do NOT touch /repo. Do NOT read or write anything under /verif or /root/proto or /root/.vp. You have no network; use `--offline` with cargo.
+Work ONLY inside your own scratch git worktree of the repository: {wt}  (it is a git worktree; the first build compiles everything, 10-20 minutes). Do NOT touch /repo. Do NOT read or write anything under /verif or /root/proto or /root/.vp. You have no network; use `--offline` with cargo.
 
 ## The property (this is all you get)
 
@@ -26,6 +27,7 @@ Work ONLY inside your own scratch git worktree of the repository: {wt}  (it is a
 - It must genuinely violate the property's statement (observable through the public API / observable effects), not merely look suspicious.
 - It must compile (`cargo build --offline` of the workspace default members) and the existing test suite must still pass exactly as before. {hint}
 
+{('## Already taken (produce something DIFFERENT)' + chr(10) + chr(10) + 'Another engineer already produced the following change for this property. Yours must use a different mechanism at a different site (a different function and a different kind of mistake):' + chr(10) + avoid + chr(10)) if avoid else ''}
 ## Existing test suite (must still pass with your change)
 
 From the worktree root:
